@@ -33,6 +33,7 @@ def _roots():
     a_acct = rb.derive(a, [44 + HARD, HARD, HARD])
     a84 = rb.derive(a, [84 + HARD, HARD, HARD])
     b_chain = rb.derive(b, [84 + HARD, 1 + HARD, HARD, 0])
+    b44 = rb.derive(b, [44 + HARD, 1 + HARD, HARD])
     return {
         "A": {"kind": "mnemonic", "mnemonic": MN12, "password": "", "testnet": False},
         "B": {"kind": "mnemonic", "mnemonic": MN24, "password": PW_B, "testnet": True},
@@ -41,11 +42,19 @@ def _roots():
         "E": {"kind": "xkey", "key": a_acct.xpub()},                       # watch-only, account level
         "F": {"kind": "xkey", "key": b_chain.xpub(rb.VERSIONS["vpub"][0])},  # watch-only, chain level, vpub
         "G": {"kind": "xkey", "key": a84.xpub(rb.VERSIONS["zpub"][0])},    # watch-only, zpub
+        # private imports of nodes that are ALSO derived nodes of A / B (same key material reached two ways)
+        "H": {"kind": "xkey", "key": a84.xprv(rb.VERSIONS["zprv"][0])},    # = A at m/84'/0'/0'
+        "I": {"kind": "xkey", "key": a_acct.xprv()},                       # = A at m/44'/0'/0'
+        "J": {"kind": "xkey", "key": b44.xprv(rb.VERSIONS["tprv"][0])},    # = B at m/44'/1'/0'
     }
+# (root, path of the same key inside another root): used to steer workloads towards cross-wallet collisions
+ALIASES = {"E": ("A", [44 + HARD, HARD, HARD]), "G": ("A", [84 + HARD, HARD, HARD]), "H": ("A", [84 + HARD, HARD, HARD]),
+           "I": ("A", [44 + HARD, HARD, HARD]), "F": ("B", [84 + HARD, 1 + HARD, HARD, 0]),
+           "J": ("B", [44 + HARD, 1 + HARD, HARD])}
 
 
 ROOTS = _roots()
-PRIVATE_ROOTS = ("A", "B", "C", "D")
+PRIVATE_ROOTS = ("A", "B", "C", "D", "H", "I", "J")
 PUBLIC_ROOTS = ("E", "F", "G")
 
 
